@@ -375,11 +375,16 @@ func chain(run *ev.Run, unit int64, r *rand.Rand, tree *reftree.Tree, key *refno
 			cur += uint64(1 + r.IntN(400))
 		}
 	}
+	// keep the schedule strictly increasing and inside the prepared tree
 	maxN := uint64(1210)
 	for i := range sched {
-		if sched[i] > maxN {
-			sched[i] = maxN - uint64(len(sched)-i)
+		if sched[i] > maxN || (i > 0 && sched[i] <= sched[i-1]) {
+			sched = sched[:i]
+			break
 		}
+	}
+	if len(sched) < 2 {
+		sched = []uint64{200, 300, 520}
 	}
 	stub := &stubSumDB{t: tree, key: key, size: sched[0], cache: map[string][]byte{}}
 	w := &chainWitness{tree: tree}
